@@ -6,6 +6,7 @@ CONSTANTS
   Runs = 2
   FirstVisitCounts = TRUE
   WaitForVisited = TRUE
+  UnvisitedIsTop = FALSE
   RootsAreEntries = TRUE
 INVARIANTS SweepBound FixedPoint Stable AllVisited
 CHECK_DEADLOCK FALSE
